@@ -3,7 +3,7 @@ from hypothesis import strategies as st
 
 from vf.gen import regions as G
 
-FRAMES = ['icrs', 'fk5', 'fk4', 'galactic']
+FRAMES = ['icrs', 'fk5', 'fk4', 'galactic', 'fk5_j1975']
 ANG_UNITS = ['arcsec', 'arcmin', 'deg', 'rad']
 TO_ARCSEC = {'arcsec': 1.0, 'arcmin': 60.0, 'deg': 3600.0, 'rad': 206264.80624709636}
 
